@@ -24,6 +24,23 @@ CHECKS = {
              "Trusted: TLC, the 60-line renderer in tools/props/c03.py, gcc as linker.",
         technique="TLA+ reference semantics (TLC enumeration) + spec-to-implementation replay",
         ref="DESIGN.md section 4 C03"),
+    "C05": dict(
+        engine="Scopes",
+        category="model_checking",
+        text="Scopes.tla's state graph enumerates every well-nested event sequence in the bound "
+             "(blocks, definitions, references, two-arm switches with an argument, lambdas with / "
+             "without a parameter, comptime blocks) over the pool {a (also a global), b (also a "
+             "parameter), u8 (also a built-in type)}; its static semantics prescribes the binding "
+             "of every reference (innermost frame, then parameter of the enclosing lambda, then "
+             "global, then built-in, else undefined) and is itself checked (scopes end, "
+             "innermost). Every program is lowered by the real hir::index / hir::lower and the "
+             "resolution recorded in Bodies is compared reference by reference.",
+        note="quick: <=5 events (15k programs), thorough: <=7 events (944k programs), depth <=3, "
+             "<=2 references per program. Front end only (what hir_ty / codegen do with the "
+             "resolution is covered by the executed-program checks). Trusted: TLC, the renderer "
+             "in tools/props/c05.py, the harness' walk over Bodies.",
+        technique="TLA+ static semantics (TLC enumeration) + spec-to-implementation replay",
+        ref="DESIGN.md section 4 C05"),
     "C22": dict(
         engine="Lexer",
         category="model_checking",
